@@ -16,6 +16,7 @@ RULE = ('Inputs: every built-in function x argument shape {literal, reference, s
         'input is passed to every applicable rewriting function; the outcome must be a result of the documented kind '
         'or a licensed failure. Non-trivial = the function returned an object different from its input or raised; '
         'distinct = (api, input shape).')
+RULE_ADDED = " Since the seeding rounds: constant predicates in split positions, every operator x operand-kind pair the parser accepts, constant-power grid, aggregates over ranges of 10..10^18 integers; simplify's result type must lie inside the input type."
 ASSUMPTIONS = [
     'simplify may raise only when a reference-free subterm is undefined or a divisor is zero on the whole grid; '
     'split_and may raise ValueError only when the input is false on the whole grid; a TypeError from a replacement '
